@@ -142,6 +142,10 @@ impl PciTransport {
                     .configuration_access
                     .read_word(device_function, capability.offset + CAP_LENGTH_OFFSET),
             };
+            if struct_info.bar > 5 {
+                // Values other than 0 to 5 are reserved, and the driver must ignore the capability.
+                continue;
+            }
 
             match cfg_type {
                 VIRTIO_PCI_CAP_COMMON_CFG if common_cfg.is_none() => {
